@@ -39,6 +39,7 @@ ASSUMPTIONS = [
 ]
 TRUSTED_BASE = ['fractions.Fraction request evaluator and satisfiability predicate (this file)', 'recording fake of gear.Database (vf/gen_batch_pure.py)',
                 'inert stubs for prometheus/google/azure SDK imports (never on the deciding path)']
+FORBIDDEN_STUBS = ('aiomysql', 'pymysql', 'google', 'azure', 'kubernetes_asyncio', 'googlecloudprofiler')  # imported only, never called
 SHARDS = {'quick': 2, 'thorough': 16}
 FLOORS = {'granted': 4000, 'rejected_unsatisfiable': 500, 'handler_calls': 1500, 'convert_calls': 5000, 'select_calls': 3000,
           'clouds': 2, 'granted_memory_driven': 200, 'job_private_granted': 50}
@@ -615,5 +616,30 @@ def run(ctx):
 
 
 BREAKS = """
-(filled in after validation)
+Genuine defects found on the unchanged tree (all four reproduce on seeds 0..4, both tiers); proposed fixes, not applied,
+in /verif/proposed_fixes/; with the three diffs applied in a scratch worktree the check is silent on seeds 0..4:
+  cores/cpu-string-float-truncated           cpu '1001m' / '1.001' / '32001m': parse_cpu_in_mcpu -> 1000 (float 1.001*1000 =
+        1000.9999999999999 truncated), passes is_valid_cores_mcpu and is granted 1000 mcpu < the 1001 mcpu asked (it should be
+        rejected as not a power of two).                        C12-cpu-string-float-truncated.diff
+  crash/pool-worker-cores-not-power-of-two   a pool whose worker_cores is 96 (gcp) / 20, 48, 72 (azure) - all offered by
+        possible_cores_from_worker_type to the pool config page - makes every cpu/memory request on the cheapest-pool branch die
+        in InstanceConfig.quantified_resources `assert is_power_two(self.cores)` (HTTP 500) although a pool could hold it.
+  crash/pool-machine-type-missing-from-table same for gcp standard/96: 'n1-standard-96' is not in MACHINE_TYPE_TO_PARTS.
+                                                                C12-pool-worker-cores-not-power-of-two.diff (covers both)
+  crash/empty-machine-type-string            resources {'machine_type': ''} passes the schema, skips the `if machine_type and`
+        guards, and reaches `assert machine_type and ...` in select_inst_coll (HTTP 500).  C12-empty-machine-type-string.diff
+
+Breaks applied one at a time on top of the three fixes (VERIF_REPO=/tmp/scratch-bp ./check C12, quick tier); all caught:
+  DESIGN  math.floor for ceil in gcp_adjust_cores_for_memory_request       memory/granted-below-request
+  DESIGN  same in azure_adjust_cores_for_memory_request                    memory/granted-below-request
+  DESIGN  `<` for `<=` in PoolConfig.convert_requests_to_resources         reject/satisfiable-request-rejected(-cheapest/-worker-type)
+  own, subtle  round() for ceil in round_storage_bytes_to_gib (needs a fractional GiB < .5)   storage/granted-below-request
+  own     select_cheapest_price_pool ignores the label                     match/wrong-label
+  own     select_pool_from_worker_type ignores preemptible                 match/wrong-preemptibility
+  own, subtle  `>=` for `>` on the gcp 64 TiB limit (needs exactly 64Ti)   reject/satisfiable-request-rejected-*
+  own     gcp lowmem -> 'standard'                                          match/wrong-worker-type
+  own     azure E memory per core 8200 MiB                                 fit/memory-exceeds-worker-share
+  own     round() for ceil in adjust_cores_for_packability                 cores/granted-below-request, memory/granted-below-request
+  own, subtle  handler: `resources.get('preemptible') or DEFAULT` (explicit false ignored)     match/wrong-preemptibility
+  own     handler: memory class asks for twice the cores' memory           reject/satisfiable-request-rejected-worker-type
 """
